@@ -507,6 +507,13 @@ func (c *Conn) Output() []byte {
 	return append([]byte{}, c.out...)
 }
 
+// LastWriteT returns the logical time of the last Write.
+func (c *Conn) LastWriteT() int64 {
+	c.mu.Lock()
+	defer c.mu.Unlock()
+	return c.lastWrite
+}
+
 // Closed reports whether the server closed the connection.
 func (c *Conn) Closed() bool {
 	c.mu.Lock()
